@@ -52,6 +52,20 @@ def records(ctx):
             add('project2', {'s': enc(fs), 'ns1': ns1, 'ns2': ns}, observe(lambda: fs.project(ns1).project(ns)), site='Spectrum.project')
         else:
             add('project', {'s': enc(fs), 'ns': ns}, observe(lambda: fs.project(ns)), site='Spectrum.project')
+    # 2b. the projection weights are shared (memoised) with Spectrum.from_data_dict: after building spectra from
+    #     data dictionaries that project n -> m, the weights and project() for the same (m, n) must be unchanged
+    for (n, m) in ([(10, 6), (7, 3)] if ctx.quick else [(10, 6), (7, 3), (16, 9), (24, 5)]):
+        dd = {}
+        for s_ in range(40):
+            der = rng.randint(0, n)
+            dd['c_%d' % s_] = {'segregating': ('A', 'T'), 'outgroup_allele': 'A', 'calls': {'P': (n - der, der)}}
+        for rep in range(3):
+            dadi.Spectrum.from_data_dict(dd, ['P'], [m], polarized=True)
+        for h in range(0, n + 1):
+            w = Numerics._cached_projection(m, n, h)
+            add('weights', {'m': m, 'n': n, 'h': h, 'after': 'from_data_dict'}, {'w': common.rats(w)}, site='Numerics._cached_projection')
+        fs = rand_spectrum(rng, [n + 1], folded=False, mask_mode='corners')
+        add('project', {'s': enc(fs), 'ns': [m]}, observe(lambda: fs.project([m])), site='Spectrum.project')
     # 3. the neutral 1/i spectrum (interior entries) and a mask on a single source entry
     for n in ([7, 12] if ctx.quick else [7, 12, 25, 60]):
         d = np.array([0.0] + [1.0 / i for i in range(1, n)] + [0.0])
